@@ -1,6 +1,8 @@
 // Conformance driver for spec/Consensus/DPoS.tla (C21, C28).
 //
 //	dposstate replay <behaviours.jsonl> [span]
+//	dposstate checkpoint <behaviours.jsonl> [span] [stakeUntil]   (C23, checkpoint.go)
+//	dposstate fields <n> <seed>                                   (C23, generated check points, fields.go)
 //
 // Every behaviour TLC printed is a sequence of Block / RollbackTo steps.  The
 // blocks are built as real transactions and driven through the real
@@ -1165,6 +1167,8 @@ func main() {
 	switch os.Args[1] {
 	case "probe":
 		probe()
+	case "fields":
+		fieldsMain(os.Args[2:])
 	case "checkpoint":
 		span := 6
 		if len(os.Args) > 3 {
